@@ -86,7 +86,7 @@ func unaryHTTPRequest(ctx context.Context, base string, run *Run, hdr http.Heade
 
 func checkC14(e *core.Env) {
 	curEnv = e
-	e.SetRule("exhaustive matrix: gRPC codes {1..16,17,99,2^31-1,2^32-1} x request context {live, cancelled} x RPC deadline {none, already expired} x renderer {default, writes nothing, writes 418} through httpgrpc.Server.ServeHTTP, the recorded reply fed back to httpgrpc.Channel; plus every HTTP status 100..599 without X-GRPC-Status (unary and stream) and with a contradicting header; distinct = distinct matrix cells")
+	e.SetRule("exhaustive matrix: gRPC codes {1..16,17,99,2^31-1,2^32-1} x request context {live, cancelled} x RPC deadline {none, already expired} x renderer {default, writes nothing, writes 418} through httpgrpc.Server.ServeHTTP, the recorded reply fed back to httpgrpc.Channel under call options {none, Header, Trailer, Header+Trailer+Peer}; plus every HTTP status 100..599 without X-GRPC-Status (unary and stream) and with a contradicting header; distinct = distinct matrix cells")
 	e.Assume("the documented table is parsed from DefaultErrorRenderer's doc comment in /repo/httpgrpc/server.go at run time")
 	table, err := docTable()
 	if err != nil {
